@@ -26,7 +26,114 @@ func nm(s string) enc.Name {
 
 var (
 	mc = "/localhost/nfd/strategy/multicast/v=1"
+	br = "/localhost/nfd/strategy/best-route/v=1"
 )
+
+// ---- lookup results retained by reference ----
+//
+// A forwarding thread keeps using what a lookup returned (it iterates the next hops, hashes the
+// strategy name) long after the table lock was released. Every value a lookup operation returns is
+// therefore KEPT BY REFERENCE here, together with a deep snapshot taken at the moment the call
+// returned, and is re-read later: by the lookup thread itself after its next scheduling point,
+// after every operation that completes (controlled scheduler only) and once more when all threads
+// have finished. A kept value that no longer equals its snapshot was rewritten under the thread
+// that holds it: the lookup result is torn / partially updated, whatever it looked like at the
+// moment of the return.
+
+// Kept is one retained lookup result.
+type Kept struct {
+	Kind, Op string
+	nh       []*table.FibNextHopEntry
+	st       enc.Name
+	isNH     bool
+	held     bool   // a result is being kept (set by the lookup, cleared by Setup)
+	Snap     string // deep snapshot at the moment the lookup returned
+	Now      string // first differing deep rendering seen later ("" = never differed)
+	When     string // when the difference was first seen
+}
+
+// Every lookup operation owns one slot (Op.Keep), written only by the thread that runs the
+// operation: no lock or other synchronisation is shared between the threads on behalf of the
+// harness, so the free-running -race pass sees exactly the ordering the tables themselves provide.
+var current []*Kept // the slots of the scenario being executed (set by Setup, before threads start)
+
+func deepNH(nh []*table.FibNextHopEntry) string {
+	if nh == nil {
+		return "nil"
+	}
+	x := make([]string, 0, len(nh))
+	for _, h := range nh {
+		if h == nil {
+			x = append(x, "nil")
+			continue
+		}
+		x = append(x, fmt.Sprintf("%d:%d", h.Nexthop, h.Cost))
+	}
+	return "[" + strings.Join(x, " ") + "]" // in the order returned
+}
+
+func deepName(n enc.Name) string {
+	if n == nil {
+		return "nil"
+	}
+	x := make([]string, 0, len(n))
+	for _, c := range n {
+		x = append(x, fmt.Sprintf("%d=%q", uint64(c.Typ), c.Val))
+	}
+	return "[" + strings.Join(x, " ") + "]"
+}
+
+func (k *Kept) render() string {
+	if k.isNH {
+		return deepNH(k.nh)
+	}
+	return deepName(k.st)
+}
+
+// keep stores a fresh lookup result in the operation's slot and snapshots it.
+func (k *Kept) keep(v Kept) *Kept {
+	kind, op := k.Kind, k.Op
+	*k = v
+	k.Kind, k.Op, k.held = kind, op, true
+	k.Snap = k.render()
+	return k
+}
+
+// Recheck re-reads one kept result.
+func (k *Kept) Recheck(when string) {
+	if !k.held || k.Now != "" {
+		return
+	}
+	if now := k.render(); now != k.Snap {
+		k.Now, k.When = now, when
+	}
+}
+
+// Recheck re-reads every result kept so far in this execution. (Controlled scheduler: called
+// after every completed operation; free-running: only after all goroutines have finished.)
+func Recheck(when string) {
+	for _, k := range current {
+		k.Recheck(when)
+	}
+}
+
+// KeptChanged returns the kept results that were seen to differ from their snapshot, and the
+// number of results kept in this execution.
+func KeptChanged() (changed []*Kept, kept int) {
+	for _, k := range current {
+		if k.held {
+			kept++
+			if k.Now != "" {
+				changed = append(changed, k)
+			}
+		}
+	}
+	return changed, kept
+}
+
+func (k *Kept) String() string {
+	return fmt.Sprintf("%s returned %s; the same value read again %s is %s", k.Op, k.Snap, k.When, k.Now)
+}
 
 // Op is one API call as a user of the tables sees it.
 type Op struct {
@@ -35,6 +142,8 @@ type Op struct {
 	// Run performs the call; yield() is a scheduling point placed between obtaining a result and
 	// consuming it (the forwarder iterates lookup results after the table lock was released).
 	Run func(yield func()) string
+	// Keep is the slot in which a lookup operation keeps, by reference, what the table returned.
+	Keep *Kept
 }
 
 func nhStr(nh []*table.FibNextHopEntry) string {
@@ -54,19 +163,19 @@ func RibAdd(p string, f, o, c, fl uint64) Op {
 	return Op{"RibAdd", fmt.Sprintf("RibAdd(%s,f%d,o%d,c%d,fl%d)", p, f, o, c, fl), func(func()) string {
 		table.Rib.AddEncRoute(nm(p), &table.Route{FaceID: f, Origin: o, Cost: c, Flags: fl})
 		return ""
-	}}
+	}, nil}
 }
 func RibRemove(p string, f, o uint64) Op {
 	return Op{"RibRemove", fmt.Sprintf("RibRemove(%s,f%d,o%d)", p, f, o), func(func()) string {
 		table.Rib.RemoveRouteEnc(nm(p), f, o)
 		return ""
-	}}
+	}, nil}
 }
 func FaceDown(f uint64) Op {
 	return Op{"FaceDown", fmt.Sprintf("FaceDown(f%d)", f), func(func()) string {
 		face.FaceTable.Remove(f)
 		return ""
-	}}
+	}, nil}
 }
 
 // FaceAdd registers a new face (a null link service on a null transport) in the face table; the
@@ -80,7 +189,7 @@ func FaceAdd(slot int) Op {
 		face.FaceTable.Add(l)
 		addedSlot[slot] = l.FaceID()
 		return fmt.Sprint("id=", l.FaceID())
-	}}
+	}, nil}
 }
 
 // FaceProbe is what a forwarding or management thread does with a face id it got from a packet or
@@ -106,7 +215,7 @@ func FaceProbe() Op {
 			}
 		}
 		return strings.Join(out, ",")
-	}}
+	}, nil}
 }
 
 // FaceDownOwn tears down the face this thread added in slot.
@@ -114,49 +223,66 @@ func FaceDownOwn(slot int) Op {
 	return Op{"FaceDown", fmt.Sprintf("FaceDownOwn(#%d)", slot), func(func()) string {
 		face.FaceTable.Remove(addedSlot[slot])
 		return ""
-	}}
+	}, nil}
 }
 
 func FibInsert(p string, f, c uint64) Op {
 	return Op{"FibInsert", fmt.Sprintf("FibInsert(%s,f%d,c%d)", p, f, c), func(func()) string {
 		table.FibStrategyTable.InsertNextHopEnc(nm(p), f, c)
 		return ""
-	}}
+	}, nil}
 }
 func FibRemove(p string, f uint64) Op {
 	return Op{"FibRemove", fmt.Sprintf("FibRemove(%s,f%d)", p, f), func(func()) string {
 		table.FibStrategyTable.RemoveNextHopEnc(nm(p), f)
 		return ""
-	}}
+	}, nil}
 }
-func SetStrategy(p string) Op {
-	return Op{"SetStrategy", fmt.Sprintf("SetStrategy(%s,mc)", p), func(func()) string {
-		table.FibStrategyTable.SetStrategyEnc(nm(p), nm(mc))
+func SetStrategy(p string) Op { return SetStrategyTo(p, "mc") }
+
+// SetStrategyTo sets the strategy choice of p to multicast ("mc") or best-route ("br").
+func SetStrategyTo(p, which string) Op {
+	s := mc
+	if which == "br" {
+		s = br
+	}
+	return Op{"SetStrategy", fmt.Sprintf("SetStrategy(%s,%s)", p, which), func(func()) string {
+		table.FibStrategyTable.SetStrategyEnc(nm(p), nm(s))
 		return ""
-	}}
+	}, nil}
 }
 func UnsetStrategy(p string) Op {
 	return Op{"UnsetStrategy", fmt.Sprintf("UnsetStrategy(%s)", p), func(func()) string {
 		table.FibStrategyTable.UnSetStrategyEnc(nm(p))
 		return ""
-	}}
+	}, nil}
 }
 func Lookup(n string) Op {
-	return Op{"Lookup", fmt.Sprintf("Lookup(%s)", n), func(yield func()) string {
+	k := &Kept{Kind: "Lookup", Op: fmt.Sprintf("Lookup(%s)", n)}
+	return Op{k.Kind, k.Op, func(yield func()) string {
 		nh := table.FibStrategyTable.FindNextHopsEnc(nm(n))
+		k.keep(Kept{nh: nh, isNH: true})
 		yield()
+		k.Recheck("by the lookup thread after its next scheduling point")
 		return nhStr(nh)
-	}}
+	}, k}
 }
 func LookupStrategy(n string) Op {
-	return Op{"LookupStrategy", fmt.Sprintf("LookupStrategy(%s)", n), func(yield func()) string {
+	k := &Kept{Kind: "LookupStrategy", Op: fmt.Sprintf("LookupStrategy(%s)", n)}
+	return Op{k.Kind, k.Op, func(yield func()) string {
 		s := table.FibStrategyTable.FindStrategyEnc(nm(n))
+		k.keep(Kept{st: s})
 		yield()
-		if s == nil {
-			return "nil"
-		}
-		return s.String()
-	}}
+		k.Recheck("by the lookup thread after its next scheduling point")
+		return stStr(s)
+	}, k}
+}
+
+func stStr(s enc.Name) string {
+	if s == nil {
+		return "nil"
+	}
+	return s.String()
 }
 func ListFib() Op {
 	return Op{"ListFib", "ListFib()", func(yield func()) string {
@@ -168,7 +294,7 @@ func ListFib() Op {
 		}
 		sort.Strings(out)
 		return strings.Join(out, ";")
-	}}
+	}, nil}
 }
 func ListRib() Op {
 	return Op{"ListRib", "ListRib()", func(yield func()) string {
@@ -182,7 +308,7 @@ func ListRib() Op {
 		}
 		sort.Strings(out)
 		return strings.Join(out, ";")
-	}}
+	}, nil}
 }
 
 // Scenario: initial sequential ops, then threads each running its ops in order.
@@ -203,6 +329,15 @@ func Setup(fib string, s Scenario) {
 	table.VerifResetRib()
 	face.VerifResetFaceTable()
 	addedSlot = [4]uint64{}
+	current = nil
+	for _, prog := range s.Threads {
+		for _, op := range prog {
+			if op.Keep != nil {
+				op.Keep.held, op.Keep.Now, op.Keep.When = false, "", ""
+				current = append(current, op.Keep)
+			}
+		}
+	}
 	// the real NLSR readvertiser is registered with the RIB, as with readvertise_nlsr=true
 	var rv *mgmt.NlsrReadvertiser
 	rv, rvTransport = mgmt.VerifNewReadvertiser()
@@ -218,7 +353,8 @@ var rvTransport *face.InternalTransport
 func Final() string {
 	var b strings.Builder
 	for _, n := range []string{"/", "/a", "/a/b", "/a/b/c", "/a/zz", "/zz", "/c", "/c/zz"} {
-		fmt.Fprintf(&b, "%s=>{%s}/%s ", n, nhStr(table.FibStrategyTable.FindNextHopsEnc(nm(n))), LookupStrategy(n).Run(func() {}))
+		// (plain reads: observing the final state keeps nothing)
+		fmt.Fprintf(&b, "%s=>{%s}/%s ", n, nhStr(table.FibStrategyTable.FindNextHopsEnc(nm(n))), stStr(table.FibStrategyTable.FindStrategyEnc(nm(n))))
 	}
 	b.WriteString("| " + ListFib().Run(func() {}) + " | " + ListRib().Run(func() {}))
 	// face table and dispatch table: registered ids (each face under its own id)
@@ -324,5 +460,50 @@ func All(thorough bool) []Scenario {
 	for _, t := range triplesB {
 		out = append(out, Scenario{Name: "B:" + t[0] + "||" + t[1] + "||" + t[2], Init: initB, Threads: [][]Op{progsB[t[0]], progsB[t[1]], progsB[t[2]]}})
 	}
+	// Third family, started from a state in which strategy choices ALREADY exist (on an entry with
+	// next hops: /a multicast, /a/b best-route; on an entry without: /c; and the default on "/"):
+	// the updates re-point an existing choice to the other strategy (and back), unset and set again,
+	// create and prune a strategy-only entry, remove the last next hop of an entry that keeps its
+	// choice - each racing with strategy and next-hop lookups whose results are kept by reference.
+	initC := append(append([]Op{}, init...), SetStrategyTo("/a", "mc"), SetStrategyTo("/a/b", "br"), SetStrategyTo("/c", "mc"))
+	progsC := map[string][]Op{
+		"T1": {SetStrategyTo("/a", "br")},
+		"T2": {SetStrategyTo("/a/b", "mc"), SetStrategyTo("/a/b", "br")},
+		"T3": {SetStrategyTo("/", "mc")},
+		"T4": {UnsetStrategy("/a/b"), SetStrategyTo("/a/b", "mc")},
+		"T5": {UnsetStrategy("/c"), SetStrategyTo("/c", "br")},
+		"T6": {FibRemove("/a/b", 2), FibInsert("/a/b", 3, 4)},
+		"T7": {SetStrategyTo("/a", "mc")},
+		"TL": {LookupStrategy("/a/b/c"), LookupStrategy("/a/zz")},
+		"TM": {LookupStrategy("/zz"), LookupStrategy("/c/zz"), Lookup("/a/b")},
+		"TN": {Lookup("/a/b/c"), Lookup("/a/b")}, // two lookups answered from the same entry: the later one must not rewrite what the earlier one returned
+	}
+	keysC := []string{}
+	for k := range progsC {
+		keysC = append(keysC, k)
+	}
+	sort.Strings(keysC)
+	for i, a := range keysC {
+		for _, b := range keysC[i+1:] {
+			// (pairs of lookup-only programs included: two forwarding threads that only look things
+			// up must not disturb each other either; the free-running -race pass is their judge)
+			out = append(out, Scenario{Name: "C:" + a + "||" + b, Init: initC, Threads: [][]Op{progsC[a], progsC[b]}})
+		}
+	}
+	triplesC := [][3]string{{"T1", "T2", "TL"}, {"T3", "T5", "TM"}, {"T1", "T7", "TL"}}
+	if thorough {
+		triplesC = append(triplesC, [3]string{"T2", "T4", "TL"}, [3]string{"T4", "T6", "TM"}, [3]string{"T1", "TL", "TM"})
+	}
+	for _, t := range triplesC {
+		out = append(out, Scenario{Name: "C:" + t[0] + "||" + t[1] + "||" + t[2], Init: initC, Threads: [][]Op{progsC[t[0]], progsC[t[1]], progsC[t[2]]}})
+	}
 	return out
+}
+
+// Family is the scenario family a scenario name belongs to ("A", "B", "C").
+func Family(name string) string {
+	if len(name) > 2 && name[1] == ':' {
+		return name[:1]
+	}
+	return "A"
 }
